@@ -241,9 +241,96 @@ def write_if_changed(name, content):
     return True
 
 
+def char_lit(tok):
+    """Rust char literal -> Lean char literal"""
+    m = re.fullmatch(r"'(\\.|[^\\])'", tok.strip())
+    if not m:
+        fail(f"unrecognised character pattern {tok!r} in Lexer::tokenize")
+    c = m.group(1)
+    if c in ("\\n", "\\t", "\\r", "\\'", "\\\\"):
+        return "'" + c + "'"
+    if c.startswith("\\"):
+        fail(f"unsupported escape {tok!r} in Lexer::tokenize")
+    return "'" + c + "'"
+
+
+def gen_lextable():
+    """the `match ch { … }` of Lexer::tokenize as a table, consume_lbracket's alternatives, and the shape of `alt`"""
+    lx = strip_rust_comments(read("lexer.rs"))
+    m = re.search(r"fn tokenize\(&mut self\).*?match self\.iter\.next\(\)\s*\{\s*Some\(\(pos, ch\)\)\s*=>\s*\{\s*match ch\s*\{(.*?)\n {20}\}\s*\}\s*None\s*=>", lx, re.S)
+    if not m:
+        fail("cannot find the `match ch` of Lexer::tokenize")
+    body = m.group(1)
+    # split into arms at the arm indentation (24 spaces) — an arm starts with a pattern followed by `=>`
+    arms = re.split(r"\n {24}(?='|[a-z_]+ =>)", "\n" + body.strip("\n"))
+    arms = [a for a in (x.strip() for x in arms) if a]
+    rows = []
+    for a in arms:
+        mm = re.match(r"(.*?)\s*=>\s*(.*)$", a, re.S)
+        if not mm:
+            fail(f"cannot split arm {a[:60]!r}")
+        pat, rhs = mm.group(1).strip(), " ".join(mm.group(2).split()).rstrip(",")
+        if re.fullmatch(r"[a-z_]+", pat):
+            if "Invalid character" not in rhs or "return Err" not in rhs:
+                fail(f"default arm of Lexer::tokenize is not the invalid-character error: {rhs[:80]!r}")
+            continue                      # default arm = .invalid (what `actOf` answers when no arm covers the character)
+        if " if " in pat:
+            fail(f"guarded arm {pat!r} in Lexer::tokenize")
+        ranges = []
+        CH = r"'(?:\\.|[^\\])'"
+        alts_found = re.findall(r"(%s)(?:\.\.=(%s))?" % (CH, CH), pat)
+        if " | ".join(lo + ("..=" + hi if hi else "") for lo, hi in alts_found) != " ".join(pat.split()):
+            fail(f"unrecognised pattern {pat!r} in Lexer::tokenize")
+        for lo, hi in alts_found:
+            ranges.append(f"({char_lit(lo)}, {char_lit(hi or lo)})")
+        x = re.fullmatch(r"tokens\.push_back\(\(pos, ([A-Z][A-Za-z]*)\)\)", rhs)
+        y = re.fullmatch(r"tokens\.push_back\(\(pos, self\.alt\(('.'), ([A-Za-z]+), ([A-Za-z]+)\)\)\)", rhs)
+        z = re.fullmatch(r"\{?\s*tokens\.push_back\(\(pos, self\.(consume_[a-z_]+)\([a-z, ]*\)\??\)\)\s*\}?", rhs)
+        if x:
+            act = f'.single "{x.group(1)}"'
+        elif y:
+            act = f'.alt {char_lit(y.group(1))} "{y.group(2)}" "{y.group(3)}"'
+        elif z:
+            act = f'.call "{z.group(1)}"'
+        elif rhs == "{}":
+            act = ".skip"
+        elif rhs.startswith("match self.iter.next()") and re.search(r"Some\(\(_, c\)\) if c == '=' => tokens\.push_back\(\(pos, Eq\)\)", rhs) and "return Err" in rhs:
+            act = ".eqeq"
+        else:
+            fail(f"unrecognised action in Lexer::tokenize: {pat} => {rhs[:100]!r}")
+        rows.append(f"  ([{', '.join(ranges)}], {act})")
+    # consume_lbracket
+    mb = re.search(r"fn consume_lbracket\(&mut self\) -> Token \{\s*match self\.iter\.peek\(\) \{(.*?)\n {8}\}\s*\}", lx, re.S)
+    if not mb:
+        fail("cannot find consume_lbracket")
+    alts = re.findall(r"Some\(&\(_, ('.')\)\) => \{\s*self\.iter\.next\(\);\s*([A-Za-z]+)\s*\}", mb.group(1))
+    dflt = re.search(r"_ => ([A-Za-z]+),", mb.group(1))
+    if not alts or not dflt or dflt.group(1) != "Lbracket":
+        fail("unrecognised shape of consume_lbracket")
+    # alt: peek; on a match consume and return the first token, else the second
+    ma = re.search(r"fn alt\(&mut self, expected: char, match_type: Token, else_type: Token\) -> Token \{\s*match self\.iter\.peek\(\) \{\s*Some\(&\(_, c\)\) if c == expected => \{\s*self\.iter\.next\(\);\s*match_type\s*\}\s*_ => else_type,?\s*\}\s*\}", lx, re.S)
+    if not ma:
+        fail("unrecognised shape of Lexer::alt")
+    # consume_identifier / consume_number predicates
+    mi = re.search(r"fn consume_identifier.*?\|c\| matches!\(c, ([^)]*)\)", lx, re.S)
+    idchars = sorted(x.strip() for x in mi.group(1).split("|")) if mi else fail("cannot find consume_identifier's predicate")
+    if idchars != sorted(["'a'..='z'", "'_'", "'A'..='Z'", "'0'..='9'"]):
+        fail(f"consume_identifier accepts {idchars}")
+    if not re.search(r"fn consume_number.*?consume_while\(first_char\.to_string\(\), \|c\| c\.is_digit\(10\)\)", lx, re.S):
+        fail("unrecognised digit predicate in consume_number")
+    lines = ["/- GENERATED by tools/translate.py from /repo/jmespath/src/lexer.rs — do not edit. -/",
+             "import JmesVerif.Model.LexTable", "namespace JmesVerif.Generated", "",
+             "/-- the arms of `match ch` in `Lexer::tokenize`, in source order (the default arm is the invalid-character error) -/",
+             "def lexArms : List LexArm := [", ",\n".join(rows) + "]", "",
+             "/-- `consume_lbracket`: next character → token; otherwise `Lbracket` -/",
+             "def lbracketAlts : List (Char × String) := [" + ", ".join(f'({char_lit(c)}, "{t}")' for c, t in alts) + "]", "",
+             "end JmesVerif.Generated", ""]
+    return "\n".join(lines)
+
+
 def main():
     ch = []
-    for name, fn in (("Lbp.lean", gen_lbp), ("Signatures.lean", gen_sigs), ("Features.lean", gen_features)):
+    for name, fn in (("Lbp.lean", gen_lbp), ("Signatures.lean", gen_sigs), ("Features.lean", gen_features), ("LexTable.lean", gen_lextable)):
         if write_if_changed(name, fn()):
             ch.append(name)
     print("translate: " + ("rewrote " + ", ".join(ch) if ch else "unchanged"))
